@@ -33,7 +33,7 @@ REPO = os.environ.get("VERIF_REPO", "/repo")
 DUMP = os.environ.get("VERIF_TABLES_DUMP", os.path.join(VERIF, ".cache", "tables.json"))
 KNOWN = os.environ.get("VERIF_DRIFT_EXCEPTIONS", os.path.join(VERIF, "known_drift_exceptions.json"))
 JSON_REL = "physics/data/simulation/drift_table/drift_1T_70Ar_30CO2.json"
-OUT = os.path.join(VERIF, "lean", "AlphaG", "Generated")
+OUT = os.environ.get("VERIF_GENERATED_OUT", os.path.join(VERIF, "lean", "AlphaG", "Generated"))
 CHUNK = 12  # slices per generated data / obligation module (parallel elaboration)
 
 STEP_DT = Fraction(8, 10**9)      # 8 ns
